@@ -18,6 +18,7 @@ RULE = ("random parent-closed topologies (2..12 nodes, depth <= 4; chains, fans,
         "no-misdelivery are judged. Non-trivial: >=1 frame crossed the air and quiescence was "
         "reached; distinct = distinct (topology shape, src/dst levels, hops, length class, "
         "type class, profile class, medium).")
+RULE += (" Later rounds added: re-used header objects (identity = origin, frame id, embedded message id), a relay whose application stops reading, multicast_level re-assigned on relays, systematic sweeps (every type over a 3-hop route, every length over a direct link, a deep tree with level overrides), peek() before read().")
 REQUIRED = {"delivered_exactly_once": 300, "bystanders_clean": 300, "write_true": 300,
             "onair_le_32": 300, "c07_listening": 3000}
 ASSUMPTIONS = ["ideal medium (no loss, no collisions) and homogeneous MCU profiles for the "
